@@ -3,7 +3,9 @@ package main
 import (
 	"fmt"
 	"go/types"
+	"regexp"
 	"sort"
+	"strconv"
 	"strings"
 
 	"golang.org/x/tools/go/ssa"
@@ -232,6 +234,69 @@ func RuleK14(r *Report, c *Codec) {
 		}
 		r.Check(bad == "" && n > 0, "K14", "codec."+cf.Dir, c.P.Pos(cf.Fn.Pos()), fmt.Sprintf("%d paths examined", n), bad)
 	}
+}
+
+// K15: a field of a Marshaler type that was encoded without error is written: the encoder never skips it silently.
+func RuleK15(r *Report, c *Codec) {
+	r.Rule("K15", "when a field's MarshalUT0311L0x succeeds its bytes are copied into the message at the field's offset on every path that does not fail: no guard lets the encoder silently leave such a field out (only a nil pointer field is skipped)", 1)
+	bad := ""
+	n := 0
+	for _, cp := range c.M.Paths {
+		if cp.Kind != "marshaler" || cp.ErrNil == 0 || cp.Path.Outcome != "return" {
+			continue
+		}
+		var res *Term
+		for _, e := range cp.Path.Events {
+			if e.Kind == "call" && strings.HasSuffix(e.Name, ".MarshalUT0311L0x") && e.Result != nil {
+				res = e.Result
+			}
+		}
+		if res == nil {
+			continue // nil pointer field: nothing to encode
+		}
+		if ok, known := cp.Path.State.Bools["isnil("+res.String()+"#1)"]; !known || !ok {
+			continue // the field's own encoder failed
+		}
+		n++
+		copied := false
+		for _, e := range cp.Path.Events {
+			if e.Kind == "copy" && len(e.Args) == 2 && strings.Contains(e.Args[0].String(), c.M.Buf) && strings.Contains(e.Args[1].String(), res.String()+"#0") {
+				copied = true
+			}
+		}
+		if !copied {
+			bad = "an encoded field is not written to the message when [" + cut(cp.Path.State.Describe(), 240) + "]"
+		}
+	}
+	r.Check(bad == "" && n > 0, "K15", "codec.marshal:marshaler", c.P.Pos(c.M.Fn.Pos()), fmt.Sprintf("%d successful field encodings, all copied", n), bad)
+}
+
+// K16: the value-tag grammar. The pattern constant the codec matches `value:` tags with is tabulated over every
+// one-byte literal in its decimal and hexadecimal spellings (an analysis of a constant of the program: the
+// codec is not run).
+func RuleK16(r *Report, c *Codec) {
+	r.Rule("K16", "the codec's value-tag pattern matches every one-byte constant written in decimal (0..255) or hexadecimal (0x00..0xff), capturing exactly the literal", 1)
+	re, err := regexp.Compile(c.L.ReValSrc)
+	if err != nil || c.L.ReValSrc == "" {
+		r.Bad("K16", "codec:value-pattern", "", "the value-tag pattern is not a constant regular expression")
+		return
+	}
+	bad := ""
+	n := 0
+	for v := 0; v <= 255; v++ {
+		for _, lit := range []string{fmt.Sprintf("%d", v), fmt.Sprintf("0x%02x", v), fmt.Sprintf("0x%02X", v), fmt.Sprintf("0x%x", v)} {
+			for _, tag := range []string{"value:" + lit, "offset:8, value:" + lit} {
+				n++
+				m := re.FindStringSubmatch(tag)
+				if m == nil || len(m) < 2 {
+					bad = fmt.Sprintf("the tag %q is not recognised as a fixed value by the pattern %s", tag, c.L.ReValSrc)
+				} else if got, err := strconv.ParseUint(m[1], 0, 8); err != nil || int(got) != v {
+					bad = fmt.Sprintf("the tag %q yields %q, not the value %d", tag, m[1], v)
+				}
+			}
+		}
+	}
+	r.Check(bad == "", "K16", "codec:value-pattern", "", fmt.Sprintf("%d spellings of the 256 byte values recognised", n), bad)
 }
 
 // onlyDecidedBy: the error of this path is attributable to the comparison on key (no failed nested call or tag parse on the path).
